@@ -163,7 +163,14 @@ def check_case(col, t, seed):
         above_singular = True
         col.bump("orders_above_true_order_singular_column_n_judged_alone")
         Fn, Xi, Phi, Lam = plscf.pLSCF_poles(Ad[:n], Bn[:n], dt, "per", 2 * (nf - 1))
-    Fn, Xi, Lam = np.asarray(Fn), np.asarray(Xi), np.asarray(Lam)
+    try:
+        Fn, Xi, Lam = np.asarray(Fn, dtype=float), np.asarray(Xi, dtype=float), np.asarray(Lam)
+    except (ValueError, TypeError):
+        Fn = np.zeros(0)
+    if Fn.ndim != 2 or Xi.shape != Fn.shape or Lam.shape != Fn.shape or np.asarray(Phi).ndim != 3:
+        col.violation("plscf.pLSCF_poles/table_shape", f"pLSCF_poles: tables are not rectangular (orders x poles) arrays of one shape: "
+                      f"{np.shape(Fn)}, {np.shape(Xi)}, {np.shape(Lam)}, {np.shape(Phi)}", rep)
+        return
     # layout: slots per column
     if above_singular:
         if Fn.shape[1] != n or Fn.shape[0] < n * nch:
